@@ -9,6 +9,12 @@ CLAIMED = {
     design_ref="DESIGN.md §5.4",
     note="Trusted: Coq kernel + VM; Model/M_Crop.v transcription; astropy's SlicedLowLevelWCS fill-in of dropped world values, world-to-pixel inversion and floor(x+1/2) are dependency models validated by the same run. The association of high-level objects to axes (array_indices_for_world_objects) is covered by the oracle only (crop == crop_by_values == expected box).",
     technique="Coq proof over hand-written Gallina model + vm_compute correspondence check + direct oracle"),
+ "C17": dict(
+    category="proof",
+    text="Coq theorems for ANY number of cubes sharing one coordinate structure: C17_structure (common_axis_coords = one entry per coordinate object with a component on the common axis, each the concatenation in cube order of the object's slices along the common axis; includes the alignment of array_indices_for_world_objects with axis_world_coords), C17_length (as many entries as the cube-like length, ragged lengths included), C17_kth (entry k = cube j's coordinate at position i, (j,i) located by C12's index arithmetic), C17_entry (every entry of that slice is the WCS value at the pixel whose common-axis coordinate is i, whichever dimension of the coordinate array the common axis is), C17_sequence_axis_sound/complete (exactly the names on every cube, per-cube values in order). Tied to /repo by an exact correspondence check on sequences of 1-4 cubes over integer probe WCS with random correlation structures, grouped objects, linear extra coords, ragged common axes on any cube axis, user-added and slicing-produced global coords, plus a direct full-grid oracle incl. FITS TAN / rotated families.",
+    design_ref="DESIGN.md §5.17",
+    note="Trusted: Coq kernel + VM; Model/M_SeqCoords.v + M_WorldCoords.v transcription; take_at models numpy integer indexing; same_dep (components of an object depend on the same pixel axes) is an explicit premise and holds by construction of the generated cases; cubes with different coordinate structures in one sequence are not generated.",
+    technique="Coq proof over hand-written Gallina model + vm_compute correspondence check"),
  "C18": dict(
     category="proof",
     text="Coq theorems for ANY number of cubes and axes: C18_contains (on every cube axis the common range starts at the smallest start and ends at the largest stop of the cubes' own boxes, so it contains every cube's own region), C18_sequence_axis (the sequence axis is kept whole). Tied to /repo by an exact correspondence check of NDCubeSequence._get_sequence_crop_item on sequences of 1-4 cubes over integer probe WCS shifted against one another by whole pixels (per-cube box = the C04 crop model evaluated on each cube's WCS), None components, one-pixel extents, objects and values forms, wcses given as name or list, plus a direct oracle (union of nearest-pixel boxes, equal shapes, each cube sliced by the common box).",
